@@ -10,6 +10,49 @@ import random
 from .. import core, codec
 
 
+def judge(v, c, o):
+    if o["res"] == "ok" and o["bytes"] == c["expect"]:
+        return 0
+    cls = "%dbpp:%s:%s" % (c["bpp"], "rle" if c["comp"] else "raw", "res=" + o["res"] if o["res"] != "ok" else ("size" if o["len"] != len(c["expect"]) else "pixels"))
+    first = next((i for i in range(min(len(o["bytes"]), len(c["expect"]))) if o["bytes"][i] != c["expect"][i]), -1)
+    v.violation("pixel:" + cls, "%dx%d %d bpp %s, %d data bytes %s: expected %d bytes, got %s/%s %d bytes, first difference at byte %d" % (
+        c["w"], c["h"], c["bpp"], "compressed" if c["comp"] else "raw", len(c["data"]), c["data"][:24], len(c["expect"]), o["res"], o["ek"], o["len"], first),
+        {"case": {k: c[k] for k in ("w", "h", "bpp", "comp", "data")}, "expected": c["expect"][:4096], "got": o})
+    return 1
+
+
+def selftest9(wd, cases, outs, raw):
+    """corrupted observations must be flagged; and changing one input byte of a raw bitmap must change what the real
+    decoder returns (the observation really is a function of the code under test)"""
+    okc = [i for i, c in enumerate(cases) if len(c["expect"]) >= 8 and outs[i]["res"] == "ok"]
+    idx = [i for i in okc if cases[i]["h"] == 1][:60:20] + [i for i in okc if cases[i]["h"] > 1][:60:20]
+    res = []
+    for i in idx:
+        c, o = cases[i], outs[i]
+        for name, f in (("pixel_changed", lambda x: dict(x, bytes=[(x["bytes"][0] + 1) % 256] + x["bytes"][1:])),
+                        ("row_order", lambda x: dict(x, bytes=x["bytes"][4 * c["w"]:] + x["bytes"][:4 * c["w"]]) if c["h"] > 1 and x["bytes"][4 * c["w"]:] + x["bytes"][:4 * c["w"]] != x["bytes"] else None),
+                        ("one_byte_short", lambda x: dict(x, bytes=x["bytes"][:-1], len=x["len"] - 1)),
+                        ("claims_error", lambda x: dict(x, res="err", bytes=[], len=0))):
+            o2 = f(o)
+            if o2 is None:
+                continue
+            pr = core.Probe()
+            judge(pr, c, o2)
+            res.append(("%s#%d" % (name, i), bool(pr.hits)))
+    rawc = [c for c in raw if not c["comp"] and len(c["data"]) >= 2 and c["w"] * c["h"] > 0][:3]
+    mut = []
+    for c in rawc:
+        d = dict(c); d["data"] = [(c["data"][0] + 1) % 256] + c["data"][1:]
+        mut.append(d)
+    if mut:
+        mouts = codec.run_cases(wd, mut, "c09self")
+        for k, (c, o) in enumerate(zip(mut, mouts)):
+            pr = core.Probe()
+            judge(pr, c, o)          # c still carries the expectation of the unmodified input
+            res.append(("input_byte_changed#%d" % k, bool(pr.hits)))
+    return core.forward_selftest(res)
+
+
 def run(tier, seed):
     v = core.Verdict("C09", tier, seed)
     wd = core.workdir("C09")
@@ -58,14 +101,8 @@ def run(tier, seed):
         outs = codec.run_cases(wd, cases, "c09")
         nbad = 0
         for c, o in zip(cases, outs):
-            if o["res"] == "ok" and o["bytes"] == c["expect"]:
-                continue
-            nbad += 1
-            cls = "%dbpp:%s:%s" % (c["bpp"], "rle" if c["comp"] else "raw", "res=" + o["res"] if o["res"] != "ok" else ("size" if o["len"] != len(c["expect"]) else "pixels"))
-            first = next((i for i in range(min(len(o["bytes"]), len(c["expect"]))) if o["bytes"][i] != c["expect"][i]), -1)
-            v.violation("pixel:" + cls, "%dx%d %d bpp %s, %d data bytes %s: expected %d bytes, got %s/%s %d bytes, first difference at byte %d" % (
-                c["w"], c["h"], c["bpp"], "compressed" if c["comp"] else "raw", len(c["data"]), c["data"][:24], len(c["expect"]), o["res"], o["ek"], o["len"], first),
-                {"case": {k: c[k] for k in ("w", "h", "bpp", "comp", "data")}, "expected": c["expect"][:4096], "got": o})
+            nbad += judge(v, c, o)
+        tested = selftest9(wd, cases, outs, kept)
         states = sum(s["states"] for s in s16 + s32)
         cov = {"states": states, "transitions": states, "traces_validated_against_impl": len(cases) - nbad,
                "samples": [{k: c16[37][k] for k in ("w", "h", "bpp", "data", "expect")}, {k: c32[11][k] for k in ("w", "h", "bpp", "data", "expect")}],
@@ -73,7 +110,7 @@ def run(tier, seed):
                "rule": "EVERY conformant interleaved-RLE encoding of images %s (all order kinds in regular / lite / mega-mega / explicit-run forms, set variants, dithered runs, FG/BG masks, white/black; palette of one colour + black/white in quick) "
                        "and EVERY planar segmentation of images %s, enumerated by TLC with the image each denotes; %d random conformant encodings of images up to 64x16 (all long-run forms) and raw bitmaps incl. all 65536 colour values, "
                        "their expected images computed by TLC (Expect.tla); distinct = distinct (geometry, depth, data)" % (dims16, dims32, len(kept)),
-               "exhaustive_tiny": {"rle16": s16, "planar": s32}, "random_dropped_as_nonconformant": dropped, "exhaustive": True}
+               "exhaustive_tiny": {"rle16": s16, "planar": s32}, "binding_selftest_rejected": tested, "random_dropped_as_nonconformant": dropped, "exhaustive": True}
         return v.finish("model_checking", cov, [
             "conformant RLE encoders do not let an order straddle the end of the first scanline (the two published decoder semantics coincide on this class)",
             "planar streams use format header 0x10 (RLE, alpha plane, no subsampling); other headers belong to C08",
